@@ -9,7 +9,7 @@ from ..runner import Acc, watchdog, Hang
 
 ID = 'C10'
 LEVEL = 'model_checking'
-RULE = ('(large: sources of 1200 and 2100 facts with each of 10 tokens that cannot start a clause inserted behind fact 11, 999, 1000, 1001, the middle and the last-but-one fact: rejected as a whole) (deep: a term nested 100..1000 levels - compound, list, parentheses, list tails - alone, between facts, as a rule head, in a rule body, and with one token too many: the compilation raises or every clause head is defined, never only the clauses behind the deep one) (before a text outside the language is compiled, the text obtained by gluing its blank-separated words together - often a valid program - is compiled, so that nothing remembered from one text can vouch for another) seed sentences: EVERY clause or directive of the documented grammar with <= N tokens over one representative '
+RULE = ('(large: sources of 1200 and 4000 facts, each offered three times - twice as a string, once as a file - with each of 10 tokens that cannot start a clause inserted behind fact 11, 999, 1000, 1001, the middle and the last-but-one fact: rejected as a whole) (deep: a term nested 100..1000 levels - compound, list, parentheses, list tails - alone, between facts, as a rule head, in a rule body, and with one token too many: the compilation raises or every clause head is defined, never only the clauses behind the deep one) (before a text outside the language is compiled, the text obtained by gluing its blank-separated words together - often a valid program - is compiled, so that nothing remembered from one text can vouch for another) seed sentences: EVERY clause or directive of the documented grammar with <= N tokens over one representative '
         'per token class, every two-clause program built from the clauses of <= 4 tokens, and the repository\'s sample '
         'files; for each seed EVERY single edit: delete / duplicate token i, swap tokens i,i+1, replace token i by the '
         'other members of its class, insert each of the 21 token kinds and each of 32 foreign character sequences (ASCII and non-ASCII look-alikes of lexicon characters) at '
@@ -275,7 +275,7 @@ def check_deep(case):
 # ---- a stray token somewhere in a LARGE source --------------------------------------------------------
 # 1200 and 2100 facts; each of the tokens that cannot start a clause inserted behind fact 11, 999, 1000, 1001, the
 # middle one and the last-but-one: the text is outside the language and must be rejected as a whole
-BIG_SIZES = [1200, 2100]
+BIG_SIZES = [1200, 4000]
 BIG_TOKENS = ['.', ')', ']', ',', ';', '|', '->', '/', '\\+', '(']
 
 
@@ -292,10 +292,25 @@ def check_big(case):
     n, pos, ti = case
     facts = ['f%d(a%d).' % (i % 7, i) for i in range(n)]
     text = '\n'.join(facts[:pos] + [BIG_TOKENS[ti]] + facts[pos:]) + '\n'
-    try:
-        out = impl.compile_text(text)
-    except Exception as e:  # noqa: BLE001
-        return ('ok', None, None, ('big', 'raised', type(e).__name__))
+    out = None
+    first = None
+    # the same text is offered three times (twice as a string, once as a file): a text that was rejected is
+    # rejected again - whatever the compiler kept from the first attempt
+    for attempt in ('first', 'second', 'file'):
+        try:
+            if attempt == 'file':
+                from . import c16
+                out = c16.compile_from_file(text)
+            else:
+                out = impl.compile_text(text)
+            break
+        except Exception as e:  # noqa: BLE001
+            first = first or type(e).__name__
+    else:
+        return ('ok', None, None, ('big', 'raised', first))
+    if attempt != 'first':
+        return ('violation', 'compiled-text-outside-grammar:rejected-text-accepted-on-a-later-attempt', 'a source of %d facts with the stray token %r behind fact %d was rejected (%s) and then, offered again (%s attempt), compiled'
+                % (n, BIG_TOKENS[ti], pos, first, attempt), None)
     try:
         have = len(re.findall(r"atom\('a\d+'\)", out))
     except Exception:  # noqa: BLE001
